@@ -390,6 +390,8 @@ class DOK(SparseArray, NDArrayOperatorsMixin):
         self._setitem(key_list, value)
 
     def _fancy_setitem(self, idxs, values):
+        # bounds check; negative entries count from the end; an empty list is an empty integer index
+        idxs = normalize_index(tuple(idxs), self.shape)
         idxs = tuple(np.asanyarray(idxs) for idxs in idxs)
         if not all(np.issubdtype(k.dtype, np.integer) for k in idxs):
             raise IndexError("Indices must be sequences of integer types!")
